@@ -21,7 +21,7 @@ RULE = ('argument vectors drawn from domain tables (content str/bytes/int of all
 ASSUMPTIONS = common.ASSUME_QR + [
     'domain: content str/bytes/int; option values of the documented types (floats, None for scale, non-str/tuple colours are outside)',
     'a worker that does not return within the watchdog makes the run inconclusive, not violated']
-REQUIRED = ['evaluations', 'encode_observed', 'symbols_decoded', 'refused:ValueError', 'excluded_combination_refused',
+REQUIRED = ['cli_refusals_in_process', 'evaluations', 'encode_observed', 'symbols_decoded', 'refused:ValueError', 'excluded_combination_refused',
             'spelling_pairs_equal', 'serializer_refusals', 'serializer_accepts', 'cli_runs', 'cli_refusals', 'cli_spelling_pairs']
 TIMEOUT = {'quick': 3600, 'thorough': 21600}
 
@@ -67,6 +67,8 @@ def gen_cases(tier, seed):
                           'bytes', 'int', 'empty'])
         content = gen.content_of(rng, cls, rng.choice([rng.randint(0, 5), rng.randint(1, 30), rng.randint(1, 200)]))
         cases.append({'kind': 'make', 'fn': fn, 'content': content, 'kw': rnd_vector(rng, fn), 'tag': cls, 'twice': rng.random() < 0.5})
+    for c_ in common.big_int_cases(rng, tier):
+        cases.append({'kind': 'make', 'fn': 'make', 'content': c_['content'], 'kw': c_['kw'], 'tag': 'big-int', 'twice': False})
     # excluded combinations, systematically
     for v in ['M1', 'M2', 'M3', 'M4', 'm3']:
         cases.append({'kind': 'make', 'fn': 'make', 'content': '1', 'kw': {'version': v, 'error': 'H'}, 'tag': 'excluded'})
@@ -274,8 +276,15 @@ def run_make(case, rec):
     given = '+'.join(sorted(kw))
     monitors.State.last = None
     monitors.State.seq_last = None
+    # every third call passes the options by position, in the documented order (check_forwarding then compares what
+    # arrived at the encoder with what was passed)
+    pos = common.positional_args(case['fn'], kw) if common.by_position(case) else None
     try:
-        q = fn(case['content'], **kw)
+        if pos is not None:
+            rec.count('calls_with_positional_options')
+            q = fn(case['content'], *pos)
+        else:
+            q = fn(case['content'], **kw)
         ex = None
     except Exception as e:  # noqa: BLE001
         q, ex = None, e
@@ -413,6 +422,22 @@ def run_cli(case, rec, tmpdir):
     except Exception:  # noqa: BLE001
         expected = None
     if expected and expected[0] == 'refused':
+        # the same refusal with the tool called in this process, whose sys.stderr was replaced after segno.cli had
+        # been imported (an embedding application, a test runner): status 1, message on the *current* stderr
+        buf = io.StringIO()
+        code = 'no-exit'
+        try:
+            with contextlib.redirect_stderr(buf), contextlib.redirect_stdout(io.StringIO()):
+                code = cli.main(list(argv))
+        except SystemExit as ex:
+            code = ex.code
+        except Exception as ex:  # noqa: BLE001
+            code = 'raised %s' % type(ex).__name__
+        rec.count('cli_refusals_in_process')
+        if code != 1 or buf.getvalue().strip() != expected[1].strip():
+            rec.deviation('C14', 'cli-refusal-in-process', dict(what, exit=code, current_stderr=buf.getvalue()[-200:],
+                                                                library_message=expected[1][:200]))
+            return
         if p.returncode != 1:
             rec.deviation('C14', 'cli-refusal-not-exit-1', dict(what, library_message=expected[1][:200]))
             return
